@@ -144,6 +144,7 @@ class H:
         self.bg_tg: Any = None
         self.leaked: dict[str, list] = {}
         self.probe_every = bool(plan.get("probe_every"))
+        self.ctx_exited: dict[str, bool] = {}
 
     # ---- identity helpers
     def know(self, ctx: Context, cid: str) -> None:
@@ -225,6 +226,7 @@ class H:
                     sim.log("body_end", ctx=cid, how="return", exc=None, closed=ctx.closed)
         except BaseException as e:
             sim.log("ctx_exit", ctx=cid, exc=describe(e), closed=ctx.closed, cur=self.cur(), exp=outer)
+            self.ctx_exited[cid] = True
             if cid in self.leaked:
                 sim.log("leak_exit", ctx=cid, reported=_mentions_corruption(e), exc=describe(e))
                 await self._close_leaked(cid)
@@ -234,6 +236,7 @@ class H:
                 raise
         else:
             sim.log("ctx_exit", ctx=cid, exc=None, closed=ctx.closed, cur=self.cur(), exp=outer)
+            self.ctx_exited[cid] = True
             if cid in self.leaked:
                 sim.log("leak_exit", ctx=cid, reported=False, exc=None)
                 await self._close_leaked(cid)
@@ -317,6 +320,8 @@ class H:
                 await self.tfcrash(a[1], exp)
             elif op == "bglookup":
                 await self.bglookup(a[1], exp)
+            elif op == "outliving":
+                await self.outliving_modops(a[1], exp)
             elif op == "raise":
                 e = self.tag.make(a[1])
                 sim.log("raise", where="act", ctx=exp, exc=describe(e))
@@ -785,6 +790,55 @@ class H:
                 same_view=(list(before) == list(after)),
                 **extra,
             )
+
+    async def outliving_modops(self, spec: dict, cid: str | None) -> None:
+        """A task spawned inside the block (so the block's context stays its current context)
+        outlives the block and then uses the module-level shortcuts: they act on the current
+        context - which is closed, so they raise RuntimeError and change nothing anywhere."""
+        from asphalt.core import get_resource as mod_get_resource
+        from asphalt.core import get_resource_nowait as mod_get_resource_nowait
+
+        ctx = self.ctxs.get(cid) if cid else None
+        if ctx is None or self.bg_tg is None:
+            return
+        sim = self.sim
+        h = self
+
+        async def later() -> None:
+            while not ctx.closed or h.ctx_exited.get(cid) is None:
+                await sim.pause(1, 0.25)
+                if sim.now() > 200:
+                    return
+            par = ctx.parent
+            for op in spec["ops"]:
+                before = dict(ctx.get_resources(Res))
+                pbefore = dict(par.get_resources(Res)) if par is not None else {}
+                res = "ok"
+                try:
+                    if op == "add_resource":
+                        h.nfresh += 1
+                        mod_add_resource(Res(f"m{h.nfresh}"), f"m{h.nfresh}")
+                    elif op == "add_td":
+                        mod_add_teardown_callback(lambda: None)
+                    elif op == "get":
+                        await mod_get_resource(Res, "nonexistent_")
+                    elif op == "get_nowait":
+                        mod_get_resource_nowait(Res, "nonexistent_")
+                except RuntimeError:
+                    res = "RuntimeError"
+                except ResourceNotFound:
+                    res = "ResourceNotFound"
+                except BaseException as e:  # noqa: BLE001
+                    if contains_cancel(e):
+                        raise
+                    res = f"other:{type(e).__name__}"
+                pafter = dict(par.get_resources(Res)) if par is not None else {}
+                sim.log(
+                    "op", ctx=cid, op=op, res=res, closed=ctx.closed, via="module",
+                    same_view=(list(before) == list(ctx.get_resources(Res))) and list(pbefore) == list(pafter),
+                )
+
+        self.bg_tg.start_soon(later, name="w:outliving_" + spec["id"])
 
     def make_trivial_cb(self, cbid: str, cid: str) -> Any:
         sim = self.sim
@@ -1491,7 +1545,7 @@ def oracle(sim: Sim, plan: dict) -> list[dict]:
             else:
                 state = "closed"
             op, res = d["op"], d["res"]
-            key = f"{op}@{state}"
+            key = f"{op}@{state}" + ("@module_level" if d.get("via") else "")
             if op == "closed":
                 want = state in ("closing", "closed")
                 if d["val"] is not want:
@@ -1929,6 +1983,10 @@ def gen_c13(g: G) -> dict:
             elif r < 0.6:
                 g.ncb += 1
                 body.append(["bglookup", {"id": f"q{g.ncb}", "dur": rng.choice((0.5, 1.0, 3.0)), "gap": [rng.choice((1, 2)), rng.choice((0.0, 0.25))]}])
+                use_bg[0] = True
+            elif r < 0.64 and depth >= 1:
+                g.ncb += 1
+                body.append(["outliving", {"id": f"q{g.ncb}", "ops": [rng.choice(("add_resource", "add_td", "get", "get_nowait")) for _ in range(rng.randint(1, 3))]}])
                 use_bg[0] = True
             elif r < 0.8:
                 cb = g.cb()
